@@ -251,6 +251,11 @@ func gsub(t *rt.Thread, c *rt.GoCont) (rt.Cont, error) {
 				if err != nil {
 					return ""
 				}
+				if len(x) < 2 {
+					// A lone '%' at the end of the replacement string
+					err = pattern.ErrInvalidPct
+					return ""
+				}
 				b := x[1]
 				switch {
 				case '0' <= b && b <= '9':
@@ -367,7 +372,9 @@ func gsub(t *rt.Thread, c *rt.GoCont) (rt.Cont, error) {
 	return next, nil
 }
 
-var gsubPtn = regexp.MustCompile("%.")
+// gsubPtn matches '%' followed by any character (including a newline), or a
+// lone '%' at the end of the string.
+var gsubPtn = regexp.MustCompile("(?s)%.?")
 
 func subToString(r *rt.Runtime, key string, val rt.Value) (string, bool, error) {
 	if !rt.Truth(val) {
